@@ -14,6 +14,7 @@ outs += [(o, {"a": "e", "b": "f"}[os.path.basename(o)]) for o in sorted(glob.glo
 outs += [(o, {"a": "g", "b": "h"}[os.path.basename(o)]) for o in sorted(glob.glob(os.path.join("/tmp/seed4", "C??.out", "[ab]"))) if os.path.exists(os.path.join(o, "patch.diff"))]  # fourth round: all properties again, other sites
 outs += [(o, {"a": "i", "b": "j"}[os.path.basename(o)]) for o in sorted(glob.glob(os.path.join("/tmp/seed5", "C??.out", "[ab]"))) if os.path.exists(os.path.join(o, "patch.diff"))]  # fifth round
 outs += [(o, {"a": "k", "b": "l"}[os.path.basename(o)]) for o in sorted(glob.glob(os.path.join("/tmp/seed6", "C??.out", "[ab]"))) if os.path.exists(os.path.join(o, "patch.diff"))]  # sixth round (after the integrity bundle)
+outs += [(o, {"a": "m", "b": "n"}[os.path.basename(o)]) for o in sorted(glob.glob(os.path.join("/tmp/seed7", "C??.out", "[ab]"))) if os.path.exists(os.path.join(o, "patch.diff"))]  # seventh round: measurement only (eight properties)
 for out, x in outs:
     pid = os.path.basename(os.path.dirname(out))[:3]
     sid = pid + x
@@ -41,7 +42,7 @@ for out, x in outs:
         "summary": (first[0][:400] if first else ""),
         "needs_to_manifest": "see notes.md (written by the author of the change, who saw only the property text)",
         "confirmed_by_me": conf,
-        "round": {"a": 1, "b": 1, "c": 2, "d": 2, "e": 3, "f": 3, "g": 4, "h": 4, "i": 5, "j": 5, "k": 6, "l": 6}[x],
+        "round": {"a": 1, "b": 1, "c": 2, "d": 2, "e": 3, "f": 3, "g": 4, "h": 4, "i": 5, "j": 5, "k": 6, "l": 6, "m": 7, "n": 7}[x],
         "confirmation_procedure": "scratch worktree of /repo HEAD outside /repo and /verif: demo on the original (must exit 0), git apply patch.diff, demo (must exit != 0), full pinned test suite (51 tests must pass; a single failure of an unseeded statistical t-test was re-run in isolation), worktree removed",
         "caught_by": det.get(sid, {}),
     }
